@@ -24,6 +24,7 @@ func genBatches(tier string, emit func(enum.BatchCase)) {
 	enum.ColumnBatches(tier, emit)
 	enum.BoundaryBatches(tier, emit)
 	enum.WideBatches(tier, emit)
+	enum.MultiValBatches(tier, emit)
 }
 
 func batchMsg(c enum.BatchCase, diff string) string {
@@ -36,7 +37,7 @@ func init() {
 		Level:       "exploration",
 		Rule:        "bounded-exhaustive batches: every assignment of a 12-entry cell menu (absent, 1 term, with location, freq 2 + array positions, 2 terms, two same-named instances sharing a term, freq 0 without/with location, empty term, UTF-8 term, more locations than freq, frequencies / length / location values at the varint boundaries 127/128/16383/16384) to (document, field) for N<=2 (reduced menu for N=3), x composite _all on/off x chunk modes {1,2,3,1024,1025,1026}; a one-field 'column' family for N=4..7 (4 cells per document); a chunk-rule boundary family N in {1024,1025,2047,2048,2049,3000} x cardinality in {1,1023,1024,1025,N}; a 'wide' family (255..300 fields in one document, a 300-byte and a 70000-byte term, 40 array positions); both build tags. Oracle: full dump of every field/term of the universe (incl. absent) via Dictionary->PostingsList->Iterator(true,true,true) == reference model. Non-trivial = batch with >= 2 non-empty cells.",
 		Assumptions: batchAssumptions,
-		Bounds:      map[string]string{"quick": "N<=2 full 12-entry menu x 3 chunk modes, N=3 6-entry menu x 1 chunk mode, columns N<=6, boundary family; tags default+vectors", "thorough": "N<=2 full menu x 6 chunk modes, N=3 7-entry menu x 4 chunk modes, columns N<=8, boundary family with 5 chunk modes; tags default+vectors"},
+		Bounds:      map[string]string{"quick": "N<=2 full 12-entry menu x 3 chunk modes, N=3 6-entry menu x 1 chunk mode, columns N<=6, boundary family, multi-valued family (occurrences of a term cross 1024 with 1-4 hits); tags default+vectors", "thorough": "N<=2 full menu x 6 chunk modes, N=3 7-entry menu x 4 chunk modes, columns N<=8, boundary family with 5 chunk modes; tags default+vectors"},
 		Flavours:    plainAndVec,
 		New:         func() interface{} { return &enum.BatchCase{} },
 		Gen: func(tier string, emit func(interface{})) {
